@@ -214,6 +214,9 @@ func TestRegressionFixedDefects(t *testing.T) {
 		// exact parametric pattern attached to a parent's wildcard node
 		{Flows: []flowSpec{{Name: "f0", Host: "h.com", Segs: []string{"{x}", "a"}, Wild: true}, {Name: "f1", Host: "h.com", Wild: true}, {Name: "f2", Host: "h.com", Segs: []string{"{x}"}}}, Orders: [][]int{{0, 1, 2}, {2, 1, 0}},
 			Txns: []txnSpec{{Host: "h.com", Segs: []string{"a", "a", "a"}, Method: "GET"}}},
+		// a path wildcard matched a further host label (h.com/* selected for h.com.a)
+		{Flows: []flowSpec{{Name: "f0", Host: "h.com", Wild: true}, {Name: "f1", Host: "api.h.com", Segs: []string{"{x}"}, Wild: true}}, Orders: [][]int{{0, 1}, {1, 0}},
+			Txns: []txnSpec{{Host: "h.com.a", Method: "GET"}, {Host: "h.com.a", Segs: []string{"b"}, Method: "GET"}, {Host: "api.h.com.evil", Segs: []string{"a", "b"}, Method: "GET"}}},
 	}
 	for _, c := range cases {
 		r.Case()
